@@ -197,6 +197,14 @@ class MuEngine(Engine):
             st.mem.pop(cell, None)
         if wcn == 'cv' and rec.new_spin == 1 and rec.spin == 0:
             st.ghost[('flag', 'cv_spin_taken', rec.instance)] = 1        # C13.R4: this thread has been inside the cv's spinlock
+        if wcn == 'mu' and rec.pairs:
+            WT = self.K['MU_WAITING']
+            # C13.R7: a thread that turns MU_WAITING on owes an enqueue before it drops the spinlock
+            if rec.new_spin == 1 and rec.spin == 0 and any((n & WT) and not (e & WT) for e, n in rec.pairs):
+                st.ghost[('flag', 'set_waiting', rec.instance)] = 1
+            rec.set_waiting = st.ghost.get(('flag', 'set_waiting', rec.instance)) == 1
+            if rec.new_spin == 0 and rec.spin == 1:
+                st.ghost.pop(('flag', 'set_waiting', rec.instance), None)
         if wcn == 'mu':
             K = self.K
             inst = rec.instance
